@@ -469,6 +469,84 @@ fn test_tail(which: Which, n: u64, seed: u64) -> Result<(LayerOutcome, Option<St
     Ok((o, None))
 }
 
+/// Deep-tail quantile lattice: layer 0 with a tail mantissa, and the tail's own uniform
+/// injected at the quantiles q = 2^-k and 3*2^-(k+1) (k = 1..=50).  The output must be the
+/// tail quantile function at a uniform within a factor 2 of q (either orientation u or 1-u
+/// of the draw is accepted, and any of the [0,1) conversions: they differ by <= 2^-52).
+/// A law test cannot see the tail of the tail (mass e^-15 of a branch of mass 1e-4..1e-3);
+/// a uniform of reduced resolution (an f32 draw, a 32-bit word) fails here.
+/// Returns (evaluations, first failure).
+fn test_tail_quantiles(which: Which, seed: u64, skipped: &mut u64) -> (u64, Option<(String, Value)>) {
+    let (_, _, r) = which.tables();
+    let mut evals = 0;
+    let kmax = match which {
+        Which::Exp => 50,
+        // the normal tail accepts (x, y) iff 2y >= x^2 with y = -ln(u2): with u2 ~ 2^-52 that
+        // holds up to x = 8.4, i.e. q >= 2^-44
+        Which::Norm => 42,
+    };
+    for k in 1..=kmax {
+        for (num, sh) in [(1u64, k), (3u64, k + 1)] {
+            let q = num as f64 * 0.5f64.powi(sh as i32);
+            let word = ((num as u128) << (64 - sh as u32)) as u64;
+            for mirror in [false, true] {
+                if mirror && which == Which::Exp {
+                    continue;
+                }
+                // mantissa at the top of the range: |u| = 1 - 2^-51 (normal), u ~ 1 (exp)
+                let mant = match (which, mirror) {
+                    (Which::Norm, false) => (1u64 << 52) - 1,
+                    (Which::Norm, true) => 1,
+                    (Which::Exp, _) => (1u64 << 52) - 1,
+                };
+                let faults = vec![
+                    Fault { pos: 0, inject: Inject::Zig { layer: 0, mant } },
+                    Fault { pos: 1, inject: Inject::Word(word) },
+                    // second uniform of the normal tail: as small as possible, so the pair is accepted
+                    Fault { pos: 2, inject: Inject::Word(1 << 12) },
+                ];
+                let mut rng = SimRng::with_faults(seed, faults);
+                rng.budget = 64;
+                evals += 1;
+                let case = json!({"kind": "zig-tail-quantile", "which": which.name(), "k": k, "num": num, "mirror": mirror, "seed": seed});
+                let x = match guarded(|| sample_one(which, &mut rng)) {
+                    Caught::Ok(x) => x,
+                    Caught::Panic { msg, loc } => return (evals, Some((format!("panic: {msg} @ {loc}"), case))),
+                    Caught::Budget(_) => return (evals, Some(("word budget exceeded".into(), case))),
+                };
+                let want_words = if which == Which::Exp { 2 } else { 3 };
+                if rng.pos != want_words {
+                    // not the expected tail path (the table's r changed?): judged by the audit
+                    *skipped += 1;
+                    continue;
+                }
+                // effective uniform of the tail draw, from the output
+                let excess = match which {
+                    Which::Exp => x - r,
+                    Which::Norm => (x.abs() - r) * r,
+                };
+                let ueff = (-excess).exp();
+                let ok = |u: f64| u / q >= 0.5 && u / q <= 2.0;
+                // orientation 1-u: excess = -ln(1-q) ~ q
+                let alt = -(-excess).exp_m1();
+                if !(ok(ueff) || ok(alt)) || !x.is_finite() {
+                    return (
+                        evals,
+                        Some((
+                            format!(
+                                "tail draw injected at quantile {num}*2^-{sh} = {q:e}: output {x:e} corresponds to a uniform of {ueff:e} (ratio {:.3e}); the tail of the tail is not reachable at the resolution of an f64 uniform",
+                                ueff / q
+                            ),
+                            case,
+                        )),
+                    );
+                }
+            }
+        }
+    }
+    (evals, None)
+}
+
 /// bit-exact sign symmetry of the normal on paired words (m, 2^52 - m)
 fn test_symmetry(n: u64, seed: u64) -> Result<(u64, Option<String>), String> {
     let mut s = SimRng::new(seed);
@@ -610,6 +688,18 @@ impl Engine for ZigEngine {
                             res.samples.push(json!({"which": which.name(), "forced": "layer 0, tail mantissa", "N": nt, "D": o.d, "dkw_width": o.width}));
                         }
                     }
+                    let mut skipped = 0;
+                    let (ev, bad) = test_tail_quantiles(which, seed, &mut skipped);
+                    res.stat_sum("tail_quantile_points", ev as f64);
+                    res.stat_sum("tail_quantile_points_not_on_the_tail_path", skipped as f64);
+                    res.evaluations += ev;
+                    res.inj("F3-tail-quantile-lattice", ev);
+                    res.fired("F3-tail-quantile-lattice", ev);
+                    res.keys.push(hash_key(&[which.name(), "tail-quantiles"]));
+                    d.add(ev);
+                    if let Some((msg, case)) = bad {
+                        res.violations.push(mk_violation("law(tail-quantile)", format!("{}: {msg}", which.name()), which, case));
+                    }
                 }
                 _ => {
                     let seed = mix(&[ctx.seed, 0xC06, 0x5E7]);
@@ -655,6 +745,19 @@ impl Engine for ZigEngine {
                 let (o, v) = test_layer(which, i, n, seed)?;
                 println!("replay: {} forced layer {i}: D = {:.3e}, width {:.3e}", which.name(), o.d, o.width);
                 Ok(v.map(|m| vec![mk_violation("law(dkw,layer)", m, which, case.clone())]).unwrap_or_default())
+            }
+            "zig-tail-quantile" => {
+                let (_, bad) = test_tail_quantiles(which, seed, &mut 0);
+                match bad {
+                    Some((msg, c)) => {
+                        println!("replay: {} tail quantile lattice: {msg}", which.name());
+                        Ok(vec![mk_violation("law(tail-quantile)", format!("{}: {msg}", which.name()), which, c)])
+                    }
+                    None => {
+                        println!("replay: {} tail quantile lattice: ok", which.name());
+                        Ok(vec![])
+                    }
+                }
             }
             "zig-tail" => {
                 let (o, v) = test_tail(which, n, seed)?;
